@@ -47,6 +47,7 @@ THEOREMS = [
     "sse_mean_n",
     "sse_bond_count",
     "ising_vars_ok",
+    "field_threshold_witness",
 ]
 
 # the chain joined: invariance of the true SSE measure /\ its spin marginal = diagonal of the degree-L Taylor polynomial
@@ -96,6 +97,7 @@ def main(ck):
         # the reported energy is the measuring loop's -<n>/beta + offset over the sampled steps (C17 modes)
         ck.correspond("energy-measuring-loop", "drv_c17", ck.harness("c17", ["measure"]))
         ck.correspond("energy-measuring-loop-ising", "drv_c17", ck.harness("c17", ["ising"]))
+        ck.correspond("field-threshold-witness", "drv_c01", ck.harness("c01", ["fieldwit"]))   # known finding F24
         kern.run(ck, "ising")   # exact one-step kernels of the real code on tiny systems: pi K = pi
     ck.notes.append("Kernel invariance of the SSE weight is decided by C08 (slot ratio + weight_step) and C09 (cluster move "
                     "weight-preserving, symmetric); ergodicity and L -> infinity are not theorems.")
